@@ -46,6 +46,10 @@ def ns():
     def both(a, b=()):
         return (list(a), list(b))
 
+    def ds_eff(*effects):
+        """a dataset over Option('A') with the given effects (option-valued pipeline steps / callables)"""
+        return dataset(lambda a=Option("A", 1): a, effects=list(effects))
+
     def pick(a):
         return Option("X") if a else Value(0)
 
@@ -137,6 +141,7 @@ RECIPES = {
     "Pipeline": ["Option('A') >> (F.add(Option('B', 1)) + F.multiply(Option('T', 2)))", "Option('A') >> (Pipeline() + inc)"],
     "Logged": ["Logged(Option('A'), 20, 'x', 'msg')"],
     "Computation": ["Computation(Option('A'), CallbackEffect(ident))"],
+    "ChainedEffect": ["ds_eff(ident, F.add(Option('B')))", "ds_eff(F.add(Option('B')), ident)", "ds_eff(F.add(Option('B', 0)), F.add(Option('T')))"],
     "WithOptions": ["WithOptions(Option('A'), {'A': 1})", "WithOptions(Option('S'), {'S': {'X': 1}})", "WithDefaultOptions(Option('S.X'), {'S': {'X': 1}})",
                     "WithDefaultOptions(Option('A', 5), {'A': 2})", "WithDefaultOptions(Option('A') >> repr, {'A': 1})", "WithOptions(ds(Option('A'), Option('S.Y', 0)), {'S': {'X': 1}})"],
     "Cached": ["cached(Option('A'))", "cached(ds(Option('A'), Option('B', 2)))", "cached(switch(Option('A'), {1: Option('X')}, Option('Z', 3)))"],
@@ -589,8 +594,8 @@ def known_region(recipe, o, law):
             return "F24"
         if n == "Dataset" and (_shadowed(o, e.options) or _shadowed(o, e.default_options)):
             return "F24"
-        if n == "Computation":                        # F15: effects whose outcome depends on the options
-            return "F15" if law in ("L2", "L4a") else False
+        if n == "Computation":                        # F15: effects whose outcome depends on the options (their keys are not reported)
+            return "F15" if law in ("L2",) or (law == "L4a" and not recipe.startswith("ds_eff(")) else False
     return False
 
 
